@@ -278,6 +278,10 @@ def r5_resolve_completed(ctx: Context) -> None:
                 best = norm(upd[0].targets[0])
                 app = [c for c in calls_in(ast.Module(body=b, type_ignores=[]), "append")]
                 ok = len(app) == 1 and norm(app[0].args[0]) == best
+                if not ok and not app:
+                    # the branch answers directly: `return [best]`
+                    rs = [r for s_ in b for r in ast.walk(s_) if isinstance(r, ast.Return)]
+                    ok = len(rs) == 1 and isinstance(rs[0].value, ast.List) and len(rs[0].value.elts) == 1 and norm(rs[0].value.elts[0]) == best
     ctx.check(ok, "C07.R5", "TaskGraph.resolve_conditional|completed conditional -> arg-max probability child", loc(fn), "arg-max",
               "a completed conditional is not resolved to the branch that was actually taken (probability 1.0)")
     # first branch tested: completed state takes precedence over the policy
@@ -285,7 +289,10 @@ def r5_resolve_completed(ctx: Context) -> None:
     ctx.check(bool(first_if) and norm(first_if[0].test) == "task.is_complete()", "C07.R5", "TaskGraph.resolve_conditional|completion takes precedence over the policy",
               loc(fn), "ok", "the prediction policy is consulted before checking that the branch is already decided")
     rets = [r for r in ast.walk(fn) if isinstance(r, ast.Return)]
-    ctx.check(all(norm(r.value) == "resolved_tasks" for r in rets), "C07.R5", "TaskGraph.resolve_conditional|returns the resolved list", loc(fn), "ok", "returns something else")
+    def _is_task_list(v):
+        return v is not None and (norm(v) == "resolved_tasks" or (isinstance(v, ast.List) and len(v.elts) >= 1)
+                                  or (isinstance(v, ast.Call) and call_name(v) == "list" and len(v.args) == 1))
+    ctx.check(bool(rets) and all(_is_task_list(r.value) for r in rets), "C07.R5", "TaskGraph.resolve_conditional|returns the resolved list", loc(fn), "ok", "returns something else")
 
 
 def run(ctx: Context) -> None:
